@@ -104,7 +104,8 @@ def run_case(ctx, case):
                 ident = rng.choice(IDENTS)
                 version = rng.choice(rig.VERSIONS)
                 act = rng.choice(('create', 'create', 'register', 'register', 'create_key_pair', 'derive', 'destroy',
-                                  'destroy', 'destroy', 'destroy_newest_then_create', 'restart', 'abandon', 'kill'))
+                                  'destroy', 'destroy', 'destroy_newest_then_create', 'restart', 'abandon', 'kill',
+                                  'lifecycle', 'lifecycle'))
                 if act == 'create':
                     r = srv.send([op_create(policy='open' if version < (2, 0) else None, names=['k%d' % step])], ident, version)
                     if r.error is None and r.ok():
@@ -162,6 +163,19 @@ def run_case(ctx, case):
                             if r2.error is None and r2.ok():
                                 new_uid(r2.uid(), 'Create-after-destroy-newest')
                                 live[r2.uid()] = ident[0]
+                elif act == 'lifecycle':
+                    # drive live objects through the lifecycle so that Destroy meets every state
+                    cands = [u for u in live if u not in helper.values()]
+                    if cands:
+                        uid = rng.choice(cands)
+                        owner = (live[uid], ['g1'] if live[uid] == 'carol' else None)
+                        for op in rng.choice(([op_activate(uid)],
+                                              [op_revoke(uid, enums.RevocationReasonCode.KEY_COMPROMISE)],
+                                              [op_activate(uid), op_revoke(uid, enums.RevocationReasonCode.SUPERSEDED)],
+                                              [op_activate(uid), op_revoke(uid, enums.RevocationReasonCode.KEY_COMPROMISE)],
+                                              [op_revoke(uid, enums.RevocationReasonCode.CA_COMPROMISE)])):
+                            srv.send([op], owner, version if version >= (1, 0) else (1, 2))
+                        ctx.count('lifecycle_steps')
                 elif act == 'restart':
                     srv.restart()
                     last_restart = 'clean'
